@@ -458,8 +458,10 @@ def is_instance(value: Any, type_: Any) -> bool:
 
     try:
         # As described in PEP 484 - section: "The numeric tower"
-        if (type_ in [float, complex] and isinstance(value, (int, float))) or isinstance(
-            value, type_
+        # Unions are checked member by member below, isinstance(True, int | str)
+        # would accept a bool for int
+        if (type_ in [float, complex] and isinstance(value, (int, float))) or (
+            not is_union(type_) and isinstance(value, type_)
         ):
             return True
     except TypeError:
